@@ -1089,6 +1089,8 @@ impl Vm {
             .expect("Expected ExcHandler.");
         let return_ip = self.ip;
         {
+            // (a `RefMut` in checked builds, a plain reference otherwise)
+            #[allow(unused_mut)]
             let mut fiber = self.active_fiber_mut();
             fiber.drop_abandoned_pending_returns(return_ip);
             let pending = object::PendingReturn {
@@ -1222,6 +1224,8 @@ impl Vm {
         self.active_fiber_mut().frames.pop();
         {
             // Whatever return of this frame was still waiting for a finally block is moot now.
+            // (a `RefMut` in checked builds, a plain reference otherwise)
+            #[allow(unused_mut)]
             let mut fiber = self.active_fiber_mut();
             let frame_count = fiber.frames.len();
             while fiber
@@ -1626,6 +1630,8 @@ impl Vm {
             self.push(exc_object);
             // Whatever leaves the catch block - an exception, a return - passes through the
             // statement's finally block first.
+            // (a `RefMut` in checked builds, a plain reference otherwise)
+            #[allow(unused_mut)]
             let mut fiber = self.active_fiber_mut();
             fiber.exc_handlers.push(object::ExcHandler {
                 catch_ip: handler.finally_ip,
@@ -1636,6 +1642,8 @@ impl Vm {
             });
         } else {
             // The exception waits, off the operand stack, for the end of the finally block.
+            // (a `RefMut` in checked builds, a plain reference otherwise)
+            #[allow(unused_mut)]
             let mut fiber = self.active_fiber_mut();
             let pending = object::PendingReturn {
                 value: exc_object,
